@@ -6,7 +6,7 @@
    3. word-free         on token lists without Text / Month tokens the rule loops of en and tr rewrite
                         alike (open terms, vm_compute)
    4. prints            month names and unit words of the printed text
-   5. pipeline          pairs of lines through exec64; the two recorded defects *)
+   5. pipeline          pairs of lines through exec64; the recorded defect (Turkish upper case) *)
 From Coq Require Import Floats.
 From SC.Model Require Import Base Num NumF64 FloatIO Types Config Case Chrono UiTokens Rx Post Parser Items Interp RuleFns Rules
      Format Lexer Api.
@@ -436,6 +436,59 @@ Proof.
   - intro E. rewrite E in A4. discriminate.
 Qed.
 
+(* every configured spelling of every month (config.json long_months / short_months: the long spellings in map
+   order, then the short ones not already listed; tr lists ASCII spellings next to the Turkish ones) *)
+Definition month_spellings (lang : str) : list (list str) :=
+  if str_eqb lang L_tr then
+    map (map u) [["ocak"; "oca"]; ["subat"; "şubat"; "sub"; "şub"]; ["mart"; "mar"]; ["nisan"; "nis"];
+                 ["mayis"; "mayıs"; "may"]; ["haziran"; "haz"]; ["temmuz"; "tem"];
+                 ["agustos"; "ağustos"; "agu"; "ağu"]; ["eylul"; "eylül"; "eyl"]; ["ekim"; "eki"];
+                 ["kasim"; "kasım"; "kas"]; ["aralik"; "aralık"; "ara"]]%string
+  else
+    map (map s) [["january"; "jan"]; ["february"; "feb"]; ["march"; "mar"]; ["april"; "apr"]; ["may"];
+                 ["june"; "jun"]; ["july"; "jul"]; ["august"; "aug"]; ["september"; "sep"]; ["october"; "oct"];
+                 ["november"; "nov"]; ["december"; "dec"]]%string.
+
+Fixpoint alternatives (r : Regex.rx) : nat :=
+  match r with Regex.RAlt a b => (alternatives a + alternatives b)%nat | _ => 1%nat end.
+
+(* the month regex matches every spelling of its month, has exactly as many alternatives as the month has
+   spellings, and the names kept for printing are among them *)
+Definition spellings_ok (lang : str) : bool :=
+  Nat.eqb (length (month_res lang)) 12 && Nat.eqb (length (month_spellings lang)) 12 &&
+  forallb (fun x => let '((c, mi), ws) := x in
+                    forallb (re_is_match c) ws && Nat.eqb (alternatives (cre_rx c)) (length ws) &&
+                    mem_str (mi_long mi) ws && mem_str (mi_short mi) ws)
+          (combine (month_res lang) (month_spellings lang)).
+
+(* ... and no spelling of another month *)
+Definition months_exclusive (lang : str) : bool :=
+  forallb (fun ci => forallb (fun wj => forallb (fun w => Bool.eqb (re_is_match (fst (fst ci)) w) (Nat.eqb (snd ci) (snd wj)))
+                                                (fst wj))
+                             (combine (month_spellings lang) (seq 0 12)))
+          (combine (month_res lang) (seq 0 12)).
+
+Lemma months_all_spellings lang :
+  In lang [L_en; L_tr] ->
+  length (month_res lang) = 12%nat /\ length (month_spellings lang) = 12%nat /\
+  (forall c mi ws, In ((c, mi), ws) (combine (month_res lang) (month_spellings lang)) ->
+     (forall w, In w ws -> re_is_match c w = true) /\ alternatives (cre_rx c) = length ws /\
+     In (mi_long mi) ws /\ In (mi_short mi) ws) /\
+  months_exclusive lang = true.
+Proof.
+  intro Hl.
+  assert (spellings_ok lang = true) as A by (destruct Hl as [<-|[<-|[]]]; vm_compute; reflexivity).
+  assert (months_exclusive lang = true) as B by (destruct Hl as [<-|[<-|[]]]; vm_compute; reflexivity).
+  unfold spellings_ok in A. apply andb_prop in A as [A A3]. apply andb_prop in A as [A1 A2].
+  apply Nat.eqb_eq in A1, A2. repeat split; try assumption.
+  all: rewrite forallb_forall in A3; specialize (A3 _ H); cbn beta iota in A3;
+    apply andb_prop in A3 as [A3 A6]; apply andb_prop in A3 as [A3 A5]; apply andb_prop in A3 as [A3 A4].
+  - rewrite forallb_forall in A3. intros w Hw. apply A3, Hw.
+  - apply Nat.eqb_eq, A4.
+  - apply mem_str_In, A5.
+  - apply mem_str_In, A6.
+Qed.
+
 (* ---- rules ---- *)
 Definition rule_name (r : rule float) : str := match r with RInternal n _ => n | RApi _ ar => ar_name ar end.
 Definition rules_of (lang : str) : list (rule float) :=
@@ -653,12 +706,17 @@ Lemma shapes_arithmetic :
   same_rewrite bexec ny line [NUM1; OP2 "-"; NUM3; OP4 "/"; NUM5] /\
   same_rewrite bexec ny line [tinfo b1 e1 (TOperator (ch "(")) x1; NUM2; tinfo b3 e3 (TOperator (ch "+")) x3;
                               tinfo b4 e4 (TNumber V nt'') x4; tinfo b5 e5 (TOperator (ch ")")) x5].
-Proof. repeat split; go. Qed.
+Proof. (repeat match goal with |- _ /\ _ => split end; go). Qed.
 
-(* d/m/y: the one date spelling without a month word (the small_date rule fires in both) *)
+(* d/m/y: the one date spelling without a month word (the small_date rule fires in both); the three numbers are
+   concrete here (open binary64 values make the normal form of the date arithmetic explode), spans and texts are not *)
+Let DMY (dd mm yy : Z) := [tinfo b1 e1 (TNumber (fofZ dd) nt) x1; OP2 "/"; tinfo b3 e3 (TNumber (fofZ mm) nt') x3; OP4 "/";
+                           tinfo b5 e5 (TNumber (fofZ yy) nt'') x5].
 Lemma shapes_dmy :
-  same_rewrite bexec ny line [NUM1; OP2 "/"; NUM3; OP4 "/"; NUM5].
-Proof. go. Qed.
+  same_rewrite bexec ny line (DMY 29 2 2020) /\ same_rewrite bexec ny line (DMY 31 12 1999) /\
+  same_rewrite bexec ny line (DMY 1 1 2021) /\ same_rewrite bexec ny line (DMY 31 4 2021) /\
+  same_rewrite bexec ny line (DMY 12 13 2021).
+Proof. (repeat match goal with |- _ /\ _ => split end; go). Qed.
 
 (* money (three of the configured currency codes) alone, in sums, scaled, and converted by `money code` *)
 Lemma shapes_money :
@@ -668,7 +726,7 @@ Lemma shapes_money :
   same_rewrite bexec ny line [MON1 "EUR"; OP2 "*"; NUM3] /\ same_rewrite bexec ny line [MON1 "TRY"; OP2 "/"; NUM3] /\
   same_rewrite bexec ny line [MON1 "USD"; W2 "try"] /\ same_rewrite bexec ny line [MON1 "EUR"; W2 "usd"] /\
   same_rewrite bexec ny line [MON1 "TRY"; W2 "eur"].
-Proof. repeat split; go. Qed.
+Proof. (repeat match goal with |- _ /\ _ => split end; go). Qed.
 
 (* percentages: alone, `X + p%`, `X - p%`, `money +- p%`, `p% X`, `X p%` (percent_calculator) *)
 Lemma shapes_percent :
@@ -676,7 +734,7 @@ Lemma shapes_percent :
   same_rewrite bexec ny line [NUM1; OP2 "+"; PCT3] /\ same_rewrite bexec ny line [NUM1; OP2 "-"; PCT3] /\
   same_rewrite bexec ny line [MON1 "USD"; OP2 "+"; PCT3] /\ same_rewrite bexec ny line [MON1 "EUR"; OP2 "-"; PCT3] /\
   same_rewrite bexec ny line [PCT1; NUM2] /\ same_rewrite bexec ny line [NUM1; PCT2].
-Proof. repeat split; go. Qed.
+Proof. (repeat match goal with |- _ /\ _ => split end; go). Qed.
 
 (* the phrases whose pattern words are English in both rule tables *)
 Lemma shapes_phrases :
@@ -686,7 +744,7 @@ Lemma shapes_phrases :
   same_rewrite bexec ny line [NUM1; W2 "is"; tinfo b3 e3 (TText (s "what")) x3; tinfo b4 e4 (TOperator 37) x4;
                               tinfo b5 e5 (TText (s "of")) x5; tinfo b6 e6 (TNumber V nt'') x6] /\
   same_rewrite bexec ny line [NUM1; W2 "is"; PCT3; tinfo b4 e4 (TText (s "of")) x4; tinfo b5 e5 (TText (s "what")) x5].
-Proof. repeat split; go. Qed.
+Proof. (repeat match goal with |- _ /\ _ => split end; go). Qed.
 
 (* times and dates as values (already lexed): alone and in differences *)
 Lemma shapes_time_date :
@@ -694,7 +752,7 @@ Lemma shapes_time_date :
   same_rewrite bexec ny line [tinfo b1 e1 (TDate d tz) x1] /\
   same_rewrite bexec ny line [tinfo b1 e1 (TDate d tz) x1; OP2 "-"; tinfo b3 e3 (TDate d' tz') x3] /\
   same_rewrite bexec ny line [tinfo b1 e1 (TTime t tz) x1; OP2 "+"; tinfo b3 e3 (TTime t' tz') x3].
-Proof. repeat split; go. Qed.
+Proof. (repeat match goal with |- _ /\ _ => split end; go). Qed.
 
 End Shapes.
 
@@ -704,3 +762,294 @@ Lemma print_word_free {F} {NF : Num F} (cfg : config F) (l l' : str) ny (i : ite
   match i with IDuration _ | IDate _ _ | IDateTime _ _ => False | _ => True end ->
   format_result cfg l ny (AItem i) = format_result cfg l' ny (AItem i).
 Proof. destruct i; intros []; reflexivity. Qed.
+
+(* ------------------------------------------------------------------------------------- *)
+(* 4. dates and durations are printed with the language's own words                       *)
+(* ------------------------------------------------------------------------------------- *)
+From SC.Spec Require Import Calendar.
+
+Definition EN_LONG : list str :=
+  map s ["january"; "february"; "march"; "april"; "may"; "june"; "july"; "august"; "september"; "october"; "november";
+         "december"]%string.
+Definition EN_SHORT : list str :=
+  map s ["jan"; "feb"; "mar"; "apr"; "may"; "jun"; "jul"; "aug"; "sep"; "oct"; "nov"; "dec"]%string.
+Definition TR_LONG : list str :=
+  map u ["ocak"; "şubat"; "mart"; "nisan"; "mayıs"; "haziran"; "temmuz"; "ağustos"; "eylül"; "ekim"; "kasım"; "aralık"]%string.
+Definition TR_SHORT : list str :=
+  map u ["oca"; "şub"; "mar"; "nis"; "may"; "haz"; "tem"; "ağu"; "eyl"; "eki"; "kas"; "ara"]%string.
+Definition long_names (lang : str) : list str := if str_eqb lang L_tr then TR_LONG else EN_LONG.
+Definition short_names (lang : str) : list str := if str_eqb lang L_tr then TR_SHORT else EN_SHORT.
+
+Definition UTC0 : tzinfo := {| tz_name := s "UTC"; tz_off := 0 |}.
+
+(* the month table of a language holds its own names; its format entry points back to that table *)
+Lemma month_tables lang :
+  In lang [L_en; L_tr] ->
+  map (fun mi => (mi_long mi, mi_short mi)) (months_of lang) = combine (long_names lang) (short_names lang) /\
+  option_map (fun f => (lf_language f, assoc (s "current_year") (lf_date f), assoc (s "full_date") (lf_date f)))
+             (assoc lang (cf_format default_config))
+  = Some (lang, Some (s "{day} {month_long}"), Some (s "{day} {month_short} {year}")) /\
+  cf_tz default_config = UTC0.
+Proof. intros [<-|[<-|[]]]; vm_compute; repeat split. Qed.
+
+(* the 15th of every month of 2021, read in 2021 and in another year, both languages *)
+Definition month_prints_ok (lang : str) : bool :=
+  forallb (fun m =>
+             let day := days_from_civil 2021 (Z.of_nat m) 15 in
+             str_eqb (date_print default_config lang 2021 day UTC0)
+                     (s "15 " ++ uppercase_first_letter (nth (m - 1) (long_names lang) [])) &&
+             str_eqb (date_print default_config lang 2022 day UTC0)
+                     (s "15 " ++ uppercase_first_letter (nth (m - 1) (short_names lang) []) ++ s " 2021"))
+          (seq 1 12).
+
+Lemma month_prints lang m :
+  In lang [L_en; L_tr] -> In m (seq 1 12) ->
+  let day := days_from_civil 2021 (Z.of_nat m) 15 in
+  date_print default_config lang 2021 day UTC0 = s "15 " ++ uppercase_first_letter (nth (m - 1) (long_names lang) []) /\
+  date_print default_config lang 2022 day UTC0
+  = s "15 " ++ uppercase_first_letter (nth (m - 1) (short_names lang) []) ++ s " 2021".
+Proof.
+  intros Hl Hm.
+  assert (month_prints_ok lang = true) as A by (destruct Hl as [<-|[<-|[]]]; vm_compute; reflexivity).
+  unfold month_prints_ok in A. rewrite forallb_forall in A. specialize (A _ Hm).
+  apply andb_prop in A as [A1 A2]. apply str_eqb_eq in A1, A2. split; assumption.
+Qed.
+
+(* unit words: what DurationItem::print writes after a count *)
+Definition en_unit (k : durkind) : str :=
+  match k with
+  | DSecond => s "second" | DMinute => s "minute" | DHour => s "hour" | DDay => s "day"
+  | DWeek => s "week" | DMonth => s "month" | DYear => s "year"
+  end.
+Definition tr_unit (k : durkind) : str :=
+  match k with
+  | DSecond => u "saniye" | DMinute => u "dakika" | DHour => u "saat" | DDay => u "gün"
+  | DWeek => u "hafta" | DMonth => u "ay" | DYear => u "yıl"
+  end.
+Definition unit_word (lang : str) (k : durkind) (c : Z) : str :=
+  if str_eqb lang L_tr then tr_unit k else if c =? 1 then en_unit k else en_unit k ++ s "s".
+
+Lemma unit_words_printed lang fmt k c :
+  In lang [L_en; L_tr] -> assoc lang (cf_format default_config) = Some fmt ->
+  duration_formatter fmt (dur_placeholder k) c k = Z_to_str c ++ s " " ++ unit_word lang k c ++ s " ".
+Proof.
+  intros [<-|[<-|[]]] Hfmt; vm_compute in Hfmt; injection Hfmt as <-.
+  - destruct (Z.eq_dec c 1) as [->|Hc]; [destruct k; vm_compute; reflexivity|].
+    unfold duration_formatter, unit_word. replace (c =? 1) with false by (symmetry; apply Z.eqb_neq, Hc).
+    change (str_eqb L_en L_tr) with false. cbv iota.
+    generalize (Z_to_str c) as v. intro v.
+    transitivity ((v ++ 32%N :: en_unit k ++ s "s") ++ [32%N]).
+    + destruct k; (destruct c as [|[q|q|]|q]; [| | | exfalso; apply Hc; reflexivity |]); vm_compute; reflexivity.
+    + rewrite <- app_assoc. reflexivity.
+  - unfold duration_formatter, unit_word. change (str_eqb L_tr L_tr) with true. cbv iota.
+    generalize (Z_to_str c) as v. intro v.
+    transitivity ((v ++ 32%N :: tr_unit k) ++ [32%N]).
+    + destruct k; (destruct c as [|[q|q|]|q]); vm_compute; reflexivity.
+    + rewrite <- app_assoc. reflexivity.
+Qed.
+
+Definition all_kinds : list durkind := [DSecond; DMinute; DHour; DDay; DWeek; DMonth; DYear].
+
+Definition duration_prints_ok (lang : str) : bool :=
+  forallb (fun k => forallb (fun c => str_eqb (duration_print default_config lang (c * dur_unit k))
+                                              (Z_to_str c ++ s " " ++ unit_word lang k c)) [1; 2; 3])
+          all_kinds.
+
+Lemma duration_prints lang k c :
+  In lang [L_en; L_tr] -> In c [1; 2; 3] ->
+  duration_print default_config lang (c * dur_unit k) = Z_to_str c ++ s " " ++ unit_word lang k c.
+Proof.
+  intros Hl Hc.
+  assert (duration_prints_ok lang = true) as A by (destruct Hl as [<-|[<-|[]]]; vm_compute; reflexivity).
+  unfold duration_prints_ok in A. rewrite forallb_forall in A.
+  assert (In k all_kinds) as Hk by (destruct k; cbn; tauto).
+  specialize (A _ Hk). rewrite forallb_forall in A. apply str_eqb_eq, A, Hc.
+Qed.
+
+(* ------------------------------------------------------------------------------------- *)
+(* 5. whole lines through exec64; the two recorded defects                                *)
+(* ------------------------------------------------------------------------------------- *)
+(* the clock of the examples: 1 january 2022 *)
+Definition CK22 : clock := {| ck_today := 18993; ck_year := 2022 |}.
+
+(* per line of the text: the error message or the value / the printed text *)
+Definition values (lang text : str) : option (list (option (str + ast float))) :=
+  match exec64 CK22 default_config lang text with
+  | Ok r => Some (map (option_map (fun o => match lo_result o with LErr m => inl m | LOk _ a => inr a end)) (er_lines r))
+  | Panic _ => None
+  end.
+Definition prints (lang text : str) : option (list (option str)) :=
+  match exec64 CK22 default_config lang text with
+  | Ok r => Some (map (fun l => match l with
+                                | Some o => match lo_result o with LOk out _ => Some out | LErr _ => None end
+                                | None => None end) (er_lines r))
+  | Panic _ => None
+  end.
+Definition all_items (v : option (list (option (str + ast float)))) : bool :=
+  match v with
+  | Some (_ :: _ as l) => forallb (fun x => match x with Some (inr (AItem _)) => true | _ => false end) l
+  | _ => false
+  end.
+
+Definition NL : string := String (Ascii.ascii_of_nat 10) EmptyString.
+
+(* a line and its word-by-word translation *)
+Definition line_pairs : list (string * string) :=
+  [("12 times 4", "12 çarpı 4"); ("12 multiply 4 minus 3", "12 kere 4 eksi 3"); ("100 add 10%", "100 ekle 10%");
+   ("$10 sum $5", "$10 topla $5"); ("7 exclude 2", "7 çıkar 2"); ("2 append 3 times 4", "2 toplam 3 carpi 4");
+   ("3 days 2 hours", "3 gün 2 saat");
+   ("1 year 2 months 3 weeks 4 days 5 hours 6 minutes 7 seconds", "1 yıl 2 ay 3 hafta 4 gün 5 saat 6 dakika 7 saniye");
+   ("2 weeks - 3 days", "2 hafta - 3 gun"); ("90 minutes add 1 hour", "90 dakika ekle 1 saat");
+   ("3 february 2021", "3 şubat 2021"); ("5 dec 2020", "5 ara 2020"); ("17 May", "17 Mayıs");
+   ("5 FEBRUARY 2020", "5 ŞUBAT 2020"); ("9 aug 1999", "9 ağu 1999"); ("12/05/2021", "12/05/2021");
+   ("28 february 2021 + 2 days", "28 şubat 2021 + 2 gün"); ("1 march 2021 minus 1 week", "1 mart 2021 eksi 1 hafta");
+   ("31 december 2021 + 1 year", "31 aralık 2021 + 1 yıl"); ("15 june 2021 - 2 months", "15 haziran 2021 - 2 ay");
+   ("today", "bugün"); ("tomorrow + 3 days", "yarın + 3 gün"); ("yesterday", "dun");
+   ("1 january 2021 to 1 march 2021", "1 ocak 2021 1 mart 2021 arası"); ("10:30 to 12:45", "10:30 12:45 arası");
+   ("today to 25 december 2022", "bugun 25 aralık 2022 arası")]%string.
+
+Lemma pairs_equal_values :
+  map (fun p => values L_en (u (fst p))) line_pairs = map (fun p => values L_tr (u (snd p))) line_pairs /\
+  forallb (fun p => all_items (values L_en (u (fst p)))) line_pairs = true.
+Proof. split; vm_compute; reflexivity. Qed.
+
+(* ... with variables (two lines) *)
+Lemma pairs_with_variables :
+  values L_en (u ("x = 3 days" ++ NL ++ "x + 2 hours")) = values L_tr (u ("x = 3 gün" ++ NL ++ "x + 2 saat")) /\
+  all_items (values L_en (u ("x = 3 days" ++ NL ++ "x + 2 hours"))) = true /\
+  values L_en (u ("start = 3 march 2021" ++ NL ++ "start add 10 days"))
+  = values L_tr (u ("start = 3 mart 2021" ++ NL ++ "start ekle 10 gün")) /\
+  all_items (values L_en (u ("start = 3 march 2021" ++ NL ++ "start add 10 days"))) = true.
+Proof. repeat match goal with |- _ /\ _ => split end; vm_compute; reflexivity. Qed.
+
+(* each language prints dates and durations with its own words *)
+Lemma pairs_printed :
+  prints L_en (u "3 february 2021") = Some [Some (u "3 Feb 2021")] /\
+  prints L_tr (u "3 şubat 2021") = Some [Some (u "3 Şub 2021")] /\
+  prints L_en (u "17 august") = Some [Some (u "17 August")] /\
+  prints L_tr (u "17 ağustos") = Some [Some (u "17 Ağustos")] /\
+  prints L_en (u "12/05/2021") = Some [Some (u "12 May 2021")] /\
+  prints L_tr (u "12/05/2021") = Some [Some (u "12 May 2021")] /\
+  prints L_en (u "12/12/2021") = Some [Some (u "12 Dec 2021")] /\
+  prints L_tr (u "12/12/2021") = Some [Some (u "12 Ara 2021")] /\
+  prints L_en (u "1 year 2 months 3 weeks 4 days 5 hours 6 minutes 7 seconds")
+  = Some [Some (u "1 year 2 months 3 weeks 4 days 5 hours 6 minutes 7 seconds")] /\
+  prints L_tr (u "1 yıl 2 ay 3 hafta 4 gün 5 saat 6 dakika 7 saniye")
+  = Some [Some (u "1 yıl 2 ay 3 hafta 4 gün 5 saat 6 dakika 7 saniye")] /\
+  prints L_en (u "1 day 1 hour") = Some [Some (u "1 day 1 hour")] /\
+  prints L_tr (u "1 gun 1 saat") = Some [Some (u "1 gün 1 saat")] /\
+  prints L_tr (u "1 yil") = Some [Some (u "1 yıl")] /\
+  prints L_en (u "1 january 2021 to 1 march 2021") = Some [Some (u "1 month 4 weeks 1 day")] /\
+  prints L_tr (u "1 ocak 2021 1 mart 2021 arası") = Some [Some (u "1 ay 4 hafta 1 gün")].
+Proof. repeat match goal with |- _ /\ _ => split end; vm_compute; reflexivity. Qed.
+
+(* word-free lines: the same values AND the same printed text under both languages *)
+Definition word_free_lines : list string :=
+  ["1 + 2 * 3"; "(1 + 2) * 3"; "8 / 4 / 2 + 1"; "1.234,5 + 2"; "1 2 3"; "-5 + 2"; "1k + 2"; "0x1F + 1"; "0b101 * 2";
+   "$10 + $5"; "₺100 - ₺1,5"; "10 usd + 5 usd"; "10 usd try"; "100 eur usd"; "$10 * 3"; "100 try / 4"; "10 usd + 5 eur";
+   "200 + 10%"; "200 - %10"; "$40 - 10%"; "%10 200"; "10% 200"; "10%";
+   "6% on 40"; "%6 off 40"; "40 of 6%"; "20 is what % of 50"; "20 try is %10 of what";
+   "12:30"; "11:30 pm"; "5 km + 300 m"; "abc"; "1 +"; "("; ""; "# note"]%string.
+
+Lemma word_free_equal :
+  map (fun t => (values L_en (u t), prints L_en (u t))) word_free_lines
+  = map (fun t => (values L_tr (u t), prints L_tr (u t))) word_free_lines.
+Proof. vm_compute. reflexivity. Qed.
+
+Lemma word_free_variables :
+  let t1 := u ("x = 5" ++ NL ++ "x * 2") in
+  let t2 := u ("a = $10" ++ NL ++ "b = 3" ++ NL ++ "a * b") in
+  let t3 := u ("rate = 8%" ++ NL ++ "250 + rate") in
+  (values L_en t1, prints L_en t1) = (values L_tr t1, prints L_tr t1) /\ all_items (values L_en t1) = true /\
+  (values L_en t2, prints L_en t2) = (values L_tr t2, prints L_tr t2) /\ all_items (values L_en t2) = true /\
+  (values L_en t3, prints L_en t3) = (values L_tr t3, prints L_tr t3) /\ all_items (values L_en t3) = true.
+Proof. cbv zeta. repeat match goal with |- _ /\ _ => split end; vm_compute; reflexivity. Qed.
+
+(* ---- the ASCII spellings of the Turkish month names are read like the Turkish ones (repaired by 2b32105; was
+   known finding C19-K1) ---- *)
+Definition num64 (z : Z) : option (str + ast float) := Some (inr (AItem (INumber (@fofZ float NumF64 z) Decimal))).
+Definition date64 (y m d : Z) : option (str + ast float) := Some (inr (AItem (IDate (days_from_civil y m d) UTC0))).
+
+Lemma ascii_spellings_read :
+  values L_en (u "3 february 2021") = Some [date64 2021 2 3] /\
+  values L_tr (u "3 şubat 2021") = Some [date64 2021 2 3] /\
+  values L_tr (u "3 subat 2021") = Some [date64 2021 2 3] /\
+  values L_tr (u "3 sub 2021") = Some [date64 2021 2 3] /\
+  values L_tr (u "5 aralik 2020") = Some [date64 2020 12 5] /\
+  values L_tr (u "3 agu 2021") = Some [date64 2021 8 3] /\
+  values L_tr (u "12 agustos 2020 + 2 gun") = Some [date64 2020 8 14] /\
+  values L_tr (u "17 mayis") = values L_en (u "17 may") /\
+  prints L_tr (u "3 subat 2021") = Some [Some (u "3 Şub 2021")] /\
+  prints L_tr (u "5 aralik 2020") = Some [Some (u "5 Ara 2020")].
+Proof. repeat match goal with |- _ /\ _ => split end; vm_compute; reflexivity. Qed.
+
+(* ---- known finding C19-K2: upper case as Turkish writes it ---- *)
+Lemma turkish_upper_refuted :
+  values L_en (u "3 APRIL 2020") = Some [date64 2020 4 3] /\
+  values L_tr (u "3 nisan 2020") = Some [date64 2020 4 3] /\
+  values L_tr (u "3 Nisan 2020") = Some [date64 2020 4 3] /\
+  values L_tr (u "5 ŞUBAT 2020") = Some [date64 2020 2 5] /\
+  values L_tr (u "3 NİSAN 2020") = Some [num64 2023] /\
+  values L_tr (u "5 HAZİRAN 2020") = Some [num64 2025] /\
+  values L_tr (u "26 EKİM 2020") = Some [num64 2046] /\
+  to_lowercase (u "NİSAN") = [110; 105; 775; 115; 97; 110]%N /\ to_lowercase (u "NİSAN") <> u "nisan" /\
+  (* names with ı survive through the ASCII spelling their lower-cased image happens to be *)
+  to_lowercase (u "ARALIK") = u "aralik" /\ u "aralik" <> u "aralık" /\
+  values L_tr (u "5 ARALIK 2020") = Some [date64 2020 12 5] /\
+  (* operator words *)
+  values L_tr (u "10 çarpı 3") = Some [num64 30] /\ values L_en (u "10 TIMES 3") = Some [num64 30] /\
+  values L_tr (u "10 CARPI 3") = Some [num64 30] /\
+  values L_tr (u "10 ÇARPI 3") = Some [num64 13] /\ values L_tr (u "10 EKSİ 3") = Some [num64 13].
+Proof.
+  repeat match goal with |- _ /\ _ => split end; try (vm_compute; reflexivity); vm_compute; discriminate.
+Qed.
+
+(* ---- a tag no table knows behaves like any other unknown tag (instance of execute_lang) ---- *)
+Lemma unknown_tags_default ck l l' text :
+  unknown_tag LX default_config l -> unknown_tag LX default_config l' ->
+  exec64 ck default_config l text = exec64 ck default_config l' text.
+Proof. intros U U'. unfold exec64. apply unknown_tags_alike; assumption. Qed.
+
+Lemma unknown_tag_examples :
+  unknown_tag LX default_config (s "de") /\ unknown_tag LX default_config (s "xx") /\ unknown_tag LX default_config [] /\
+  ~ same_tables LX default_config L_en L_tr.
+Proof.
+  split; [vm_compute; repeat split|]. split; [vm_compute; repeat split|]. split; [vm_compute; repeat split|].
+  intros (H & _). vm_compute in H. discriminate.
+Qed.
+
+(* ---- the full statement, and what is proved of it ---- *)
+(* [translation en_line tr_line]: tr_line is en_line with every keyword replaced by a tr keyword of the
+   same class; kept abstract: the statement quantifies over any relation the caller supplies *)
+Definition C19_full (translation : str -> str -> Prop) : Prop :=
+  forall ck en_line tr_line, translation en_line tr_line ->
+    option_map (map (option_map (fun o => match lo_result o with LErr m => inl m | LOk _ a => inr a end)))
+               (match exec64 ck default_config L_en en_line with Ok r => Some (er_lines r) | Panic _ => None end)
+    = option_map (map (option_map (fun o => match lo_result o with LErr m => inl m | LOk _ a => inr a end)))
+                 (match exec64 ck default_config L_tr tr_line with Ok r => Some (er_lines r) | Panic _ => None end).
+
+(* the pairs of [line_pairs] as a translation relation: the instance proved here (clock CK22) *)
+Definition listed_translation (a b : str) : Prop := In (a, b) (map (fun p => (u (fst p), u (snd p))) line_pairs).
+
+Lemma listed_pairs_equal a b : listed_translation a b -> values L_en a = values L_tr b.
+Proof.
+  unfold listed_translation. destruct pairs_equal_values as [P _]. revert P.
+  generalize line_pairs as l. induction l as [|[x0 y0] r IH]; intros P H; [destruct H|].
+  cbn [map fst snd] in P, H. injection P as E P. destruct H as [H|H].
+  - injection H as <- <-. exact E.
+  - apply IH; assumption.
+Qed.
+
+Lemma full_partial :
+  (* proved for all lines: the tag only selects tables *)
+  (forall ck l l' text, same_tables LX default_config l l' ->
+     exec64 ck default_config l text = exec64 ck default_config l' text) /\
+  (* proved on the listed pairs at the clock CK22 *)
+  (forall a b, listed_translation a b -> values L_en a = values L_tr b) /\
+  (* refuted for a translation that also allows Turkish upper case *)
+  ~ C19_full (fun a b => a = u "3 APRIL 2020" /\ b = u "3 NİSAN 2020").
+Proof.
+  split; [intros; unfold exec64; apply execute_lang; assumption|].
+  split; [exact listed_pairs_equal|].
+  intro H; specialize (H CK22 _ _ (conj eq_refl eq_refl)); vm_compute in H; discriminate.
+Qed.
